@@ -433,8 +433,9 @@ class SymInterp:
                     return v.__dict__
                 if e.attr in v.__dict__:
                     return v.__dict__[e.attr]
-                if isinstance(getattr(type(v), e.attr, None), property):
-                    return getattr(v, e.attr)
+                static = next((c.__dict__[e.attr] for c in type(v).__mro__ if e.attr in c.__dict__), None)
+                if isinstance(static, property):
+                    return static.fget(v)
                 if e.attr in type(v).__dict__ and not callable(type(v).__dict__[e.attr]):
                     return type(v).__dict__[e.attr]
                 if self.resolver is not None:
@@ -641,8 +642,8 @@ class SymInterp:
                 return Blob(f"{recv._name}.{f.attr}()")
             if isinstance(recv, _SuperProxy):
                 return recv.call(f.attr, args, kwargs)
-            if any(recv is m_ for m_ in _PURE_MODULES.values()):
-                return getattr(recv, f.attr)(*args, **kwargs)
+            if any(recv is m_ for m_ in _PURE_MODULES.values()) or (isinstance(recv, type) and getattr(recv, "__module__", None) in _PURE_MODULES):
+                return getattr(recv, f.attr)(*args, **kwargs)          # itertools.product(...), chain.from_iterable(...), ...
             if isinstance(recv, (list, tuple, str, dict, set, frozenset, range)) or type(recv).__module__ == "collections":
                 if getattr(recv, "_cls", None) is not None and not hasattr(type(recv), f.attr):
                     # a container stand-in of a source class (e.g. a list subclass): helper methods of that class come from the source
